@@ -587,6 +587,11 @@ def _inline_in_function(prog, fi, is_new, stats):
                         repl = r + [ret]
             if repl is not None:
                 stmts[i : i + 1] = repl
+                # the names this instance brought in are taken: a second instance of the same helper gets its own
+                for st_ in repl:
+                    for x_ in ast.walk(st_):
+                        if isinstance(x_, ast.Name) and isinstance(x_.ctx, (ast.Store, ast.Del)):
+                            caller_names.add(x_.id)
                 stats.setdefault(fi.qual, []).append(g.qual)
                 stats.setdefault("#inlined", set()).add(g.qual)
                 done += 1
@@ -1042,6 +1047,23 @@ def _distribute_ifexp_calls(fi, ref_locals, stats):
     return done
 
 
+def _defs_of(fnode, name):
+    """Values of the plain bindings `name = value` / `name: T = value` of a function (other kinds of binding yield None)."""
+    out = []
+    for n in walk_function(fnode):
+        if isinstance(n, ast.Assign):
+            for t in n.targets:
+                if isinstance(t, ast.Name) and t.id == name:
+                    out.append(n.value)
+                elif any(isinstance(x, ast.Name) and x.id == name for x in ast.walk(t)) and not isinstance(t, (ast.Attribute, ast.Subscript)):
+                    out.append(None)
+        elif isinstance(n, ast.AnnAssign) and isinstance(n.target, ast.Name) and n.target.id == name and n.value is not None:
+            out.append(n.value)
+        elif isinstance(n, (ast.For, ast.AugAssign)) and any(isinstance(x, ast.Name) and x.id == name and isinstance(x.ctx, ast.Store) for x in ast.walk(n.target)):
+            out.append(None)
+    return out
+
+
 def _unfold_update_generators(fi, ref_fingerprints, stats):
     """A new statement `D.update((K, V) for T in IT [if C])` (D a name) is the loop `for T in IT: [if C:] D[K] = V`."""
     from . import alpha
@@ -1055,14 +1077,24 @@ def _unfold_update_generators(fi, ref_fingerprints, stats):
         if not (isinstance(c.func, ast.Attribute) and c.func.attr == "update" and isinstance(c.func.value, ast.Name) and len(c.args) == 1 and not c.keywords and isinstance(c.args[0], (ast.GeneratorExp, ast.ListComp)) and len(c.args[0].generators) == 1):
             continue
         g = c.args[0]
-        if not (isinstance(g.elt, ast.Tuple) and len(g.elt.elts) == 2) or g.generators[0].is_async:
+        if g.generators[0].is_async:
             continue
+        is_set = False
+        if not (isinstance(g.elt, ast.Tuple) and len(g.elt.elts) == 2):
+            # S.update(E for ..) on a local that is only ever bound to a set: the loop `for ..: S.add(E)`
+            ds = [v_ for v_ in _defs_of(fi.node, c.func.value.id)]
+            is_set = bool(ds) and all(isinstance(v_, (ast.Set, ast.SetComp)) or (isinstance(v_, ast.Call) and isinstance(v_.func, ast.Name) and v_.func.id in ("set",)) for v_ in ds)
+            if not is_set:
+                continue
         if alpha._fingerprint(n, locs)[0] in ref_fingerprints:
             continue
         blk, _p = _block_of(n)
         if blk is None:
             continue
-        store = ast.Assign(targets=[ast.Subscript(value=ast.Name(id=c.func.value.id, ctx=ast.Load()), slice=g.elt.elts[0], ctx=ast.Store())], value=g.elt.elts[1], type_comment=None)
+        if is_set:
+            store = ast.Expr(value=ast.Call(func=ast.Attribute(value=ast.Name(id=c.func.value.id, ctx=ast.Load()), attr="add", ctx=ast.Load()), args=[g.elt], keywords=[]))
+        else:
+            store = ast.Assign(targets=[ast.Subscript(value=ast.Name(id=c.func.value.id, ctx=ast.Load()), slice=g.elt.elts[0], ctx=ast.Store())], value=g.elt.elts[1], type_comment=None)
         body = [store]
         for cond in reversed(g.generators[0].ifs):
             body = [ast.If(test=cond, body=body, orelse=[])]
@@ -1136,6 +1168,45 @@ def _merge_dataclass_replace(fi, ref_locals, stats):
         done += 1
     if done:
         stats.setdefault("#dataclass_replace", []).append("%s:%d" % (fi.qual, done))
+    return done
+
+
+def _dict_key_loops_to_items(fi, ref_fingerprints, stats):
+    """A new `for K in sorted(D): V = D[K]; BODY` (also `for K in D:`; D a name that BODY does not rebind or store into, K and V not
+    rebound in BODY) is `for K, V in sorted(D.items()): BODY`: the keys are distinct, so sorting the items never compares values."""
+    from . import alpha
+
+    locs = alpha.local_names(fi.node)
+    done = 0
+    for n in list(walk_function(fi.node)):
+        if not (isinstance(n, ast.For) and not n.orelse and isinstance(n.target, ast.Name) and n.body):
+            continue
+        it = n.iter
+        srt = isinstance(it, ast.Call) and isinstance(it.func, ast.Name) and it.func.id == "sorted" and len(it.args) == 1 and not it.keywords
+        dn = it.args[0] if srt else it
+        if isinstance(dn, ast.Call) and isinstance(dn.func, ast.Attribute) and dn.func.attr == "keys" and not dn.args:
+            dn = dn.func.value
+        if not isinstance(dn, ast.Name):
+            continue
+        first = n.body[0]
+        if not (isinstance(first, ast.Assign) and len(first.targets) == 1 and isinstance(first.targets[0], ast.Name) and isinstance(first.value, ast.Subscript) and isinstance(first.value.value, ast.Name) and first.value.value.id == dn.id and isinstance(first.value.slice, ast.Name) and first.value.slice.id == n.target.id):
+            continue
+        K, V, D = n.target.id, first.targets[0].id, dn.id
+        rest = n.body[1:]
+        if any(isinstance(x, ast.Name) and x.id in (K, V, D) and isinstance(x.ctx, (ast.Store, ast.Del)) for st in rest for x in ast.walk(st)):
+            continue
+        if any(isinstance(x, (ast.Subscript, ast.Attribute)) and isinstance(x.ctx, (ast.Store, ast.Del)) and isinstance(x.value, ast.Name) and x.value.id == D for st in rest for x in ast.walk(st)):
+            continue
+        if _in_reference(fi, n, locs, ref_fingerprints):
+            continue
+        items = ast.Call(func=ast.Attribute(value=ast.Name(id=D, ctx=ast.Load()), attr="items", ctx=ast.Load()), args=[], keywords=[])
+        n.iter = ast.Call(func=ast.Name(id="sorted", ctx=ast.Load()), args=[items], keywords=[]) if srt else items
+        n.target = ast.Tuple(elts=[ast.Name(id=K, ctx=ast.Store()), ast.Name(id=V, ctx=ast.Store())], ctx=ast.Store())
+        n.body = rest or [ast.Pass()]
+        ast.fix_missing_locations(n)
+        done += 1
+    if done:
+        stats.setdefault("#dict_key_loops", []).append("%s:%d" % (fi.qual, done))
     return done
 
 
@@ -1474,6 +1545,16 @@ class _NewIdioms(ast.NodeTransformer):
             ast.copy_location(new, node)
             ast.fix_missing_locations(new)
             return new
+        if isinstance(f, ast.Lambda) and not node.keywords and not f.args.vararg and not f.args.kwarg and not f.args.kwonlyargs and not f.args.defaults and len(f.args.args) == len(node.args) and not any(isinstance(a, ast.Starred) for a in node.args):
+            # (lambda x: E)(a) -> E[x := a] for simple arguments
+            if all(_simple_arg(a) for a in node.args) and not any(isinstance(x, ast.Lambda) for x in ast.walk(f.body)):
+                self.n += 1
+                holder = ast.Expression(body=_clone(f.body))
+                _Subst({p_.arg: a for p_, a in zip(f.args.args, node.args)}).visit(holder)
+                new = holder.body
+                ast.copy_location(new, node)
+                ast.fix_missing_locations(new)
+                return new
         if nm == "itemgetter" and len(node.args) == 1 and not node.keywords and isinstance(node.args[0], ast.Constant) and isinstance(node.args[0].value, int):
             self.n += 1
             new = ast.Lambda(args=ast.arguments(posonlyargs=[], args=[ast.arg(arg="record")], kwonlyargs=[], kw_defaults=[], defaults=[]), body=ast.Subscript(value=ast.Name(id="record", ctx=ast.Load()), slice=ast.Constant(value=node.args[0].value), ctx=ast.Load()))
@@ -2155,8 +2236,11 @@ def _propagate_temps(fi, ref_locals, stats):
                     break
                 cover.setdefault(id(owner_def[1]), []).append(un)
             def closed_lambda(lm):
+                # free names must mean the same wherever the lambda ends up: not bound in the function at all, or bound
+                # exactly once (a late-binding closure over a local that is never rebound reads that one value)
                 own = {a_.arg for a_ in lm.args.args + lm.args.posonlyargs + lm.args.kwonlyargs}
-                return not ({x.id for x in ast.walk(lm.body) if isinstance(x, ast.Name)} - own) & bound
+                free = ({x.id for x in ast.walk(lm.body) if isinstance(x, ast.Name)} - own) & bound
+                return all(sum(1 for y in ast.walk(fnode) if isinstance(y, ast.Name) and y.id == nm_ and isinstance(y.ctx, (ast.Store, ast.Del))) == 1 for nm_ in free)
 
             if not ok or any(isinstance(x, (ast.Yield, ast.YieldFrom, ast.Await, ast.NamedExpr)) or (isinstance(x, ast.Lambda) and not closed_lambda(x)) for _, d, _, _ in defs for x in ast.walk(d.value)):
                 continue
@@ -3519,11 +3603,18 @@ def normalise(prog, ref):
                     set_parents(fi.node)
                 if _unfold_update_generators(fi, ref_fps, stats):
                     set_parents(fi.node)
+                if _dict_key_loops_to_items(fi, ref_fps, stats):
+                    set_parents(fi.node)
                 if _merge_dataclass_replace(fi, ref_locals, stats):
                     set_parents(fi.node)
                 for _round in range(3):
                     k = _propagate_temps(fi, ref_locals, stats)
                     if _distribute_ifexp_calls(fi, ref_locals, stats):
+                        set_parents(fi.node)
+                        k += 1
+                    tr2_ = _NewIdioms()  # a propagated lambda that is applied on the spot, partial(..)(..) &c.
+                    tr2_.visit(fi.node)
+                    if tr2_.n:
                         set_parents(fi.node)
                         k += 1
                     k += _coalesce_copies(fi, ref_locals, stats)
